@@ -83,7 +83,8 @@ func (m *MergeCompactionIterator) Next() ([]byte, []byte, error) {
 			if errors.Is(err, pq.Done) {
 				if len(m.valBuf) > 0 {
 					kReduced, vReduced := m.reduce(m.prevKey, m.valBuf, m.ctxBuf)
-					if kReduced != nil && vReduced != nil {
+					// a nil value signals a skipped record, the key can legitimately be nil (the empty key)
+					if vReduced != nil {
 						// clear the buffer, so we don't infinite loop on the last elements
 						m.valBuf = m.valBuf[:0]
 						return kReduced, vReduced, nil
@@ -97,9 +98,10 @@ func (m *MergeCompactionIterator) Next() ([]byte, []byte, error) {
 
 		var toReturnKey, toReturnVal []byte
 		//we have to accumulate the whole sequence
-		if m.prevKey != nil && m.comp.Compare(k, m.prevKey) != 0 {
+		// the buffer tells whether a group is open, prevKey is nil for the empty key
+		if len(m.valBuf) > 0 && m.comp.Compare(k, m.prevKey) != 0 {
 			kReduced, vReduced := m.reduce(m.prevKey, m.valBuf, m.ctxBuf)
-			if kReduced != nil && vReduced != nil {
+			if vReduced != nil {
 				toReturnKey = kReduced
 				toReturnVal = vReduced
 			}
@@ -111,7 +113,7 @@ func (m *MergeCompactionIterator) Next() ([]byte, []byte, error) {
 		m.valBuf = append(m.valBuf, v)
 		m.ctxBuf = append(m.ctxBuf, c)
 
-		if toReturnKey != nil && toReturnVal != nil {
+		if toReturnVal != nil {
 			return toReturnKey, toReturnVal, nil
 		}
 	}
